@@ -18,15 +18,20 @@ def s_of(cps):
     return "".join(chr(c) for c in cps)
 
 
+DECLS = ("T", "A", "B", "C", "D", "E")
+
+
 def build_grammar(attr_lists):
-    """attr_lists: {"T": [...], "A": [...], "B": [...]} full attribute texts."""
+    """attr_lists: full attribute texts per declaration: T terminal enum, A named struct, B enum, C struct WITHOUT any
+    fieldset, D tuple struct, E struct whose fields are all `_` (emitted unit-like)."""
+    g = lambda n: attr_lists.get(n, [])
     lines = ["start A"]
-    lines += attr_lists["T"]
-    lines += ["terminal T {", "    $X: ()", "}"]
-    lines += attr_lists["A"]
-    lines += ["struct A { b: B }"]
-    lines += attr_lists["B"]
-    lines += ["enum B {", "    V($X)", "    W", "}"]
+    lines += g("T") + ["terminal T {", "    $X: ()", "    $Y: ()", "    $Z: ()", "}"]
+    lines += g("A") + ["struct A { b: B c: C d: D e: E }"]
+    lines += g("B") + ["enum B {", "    V($X)", "    W($Y)", "}"]
+    lines += g("C") + ["struct C"]
+    lines += g("D") + ["struct D($Z _: $X)"]
+    lines += g("E") + ["struct E { _: $X _: $Y _: $Z }"]
     return "\n".join(lines) + "\n"
 
 
@@ -37,13 +42,13 @@ def vcase(why, src, **kw):
 def check_placement(src, attr_lists, rust):
     items, _ = rustparse.parse_items(rust)
     by = {it["name"]: it for it in items}
-    for name in ("T", "A", "B"):
+    for name in DECLS:
         if name not in by:
             return "type %s not emitted" % name
-        if by[name]["attrs"] != attr_lists[name]:
-            return "attributes before %s are %r, declared %r" % (name, by[name]["attrs"], attr_lists[name])
-    for name in ("T", "A", "B"):
-        for a in attr_lists[name]:
+        if by[name]["attrs"] != attr_lists.get(name, []):
+            return "attributes before %s are %r, declared %r" % (name, by[name]["attrs"], attr_lists.get(name, []))
+    for name in DECLS:
+        for a in attr_lists.get(name, []):
             if rust.count(a) != 1:
                 return "attribute %r occurs %d times in the emitted text" % (a, rust.count(a))
     return None
@@ -75,8 +80,8 @@ def check(prop, tier, seed):
     while i < len(good):
         lists = {}
         used = []
-        for name in ("T", "A", "B"):
-            n = rng.choice([0, 1, 1, 2, 3])
+        for name in DECLS:
+            n = rng.choice([0, 0, 1, 1, 2, 3])
             lists[name] = []
             for _ in range(n):
                 if i < len(good):
